@@ -10,16 +10,24 @@ PROP = {'streams': [('c09', 2000, 200000)],
          'C=D=C2 (PartialEq and canonical serialisation), core vs public API, 5 policies and >=6 data items (conformant + single-fault) validated '
          'under original and translated schema, annotations compared on the fragments; model lines: the printer on every type expression, the parser '
          'on printed / generated / single-token-mutated type expressions, name resolution probed end-to-end through a synthetic schema with the same '
-         'declared names; non-trivial = every model line, policy and datum, distinct by text',
+         'declared names; `sty parse-entity` lines: the real schema parser on one standard entity declaration (22 probes + 400 generated texts per '
+         'run: 1-3 names incl. keywords and reserved words, `in` as bare path / [] / list, shape with and without `=`, malformed shapes, tags, '
+         'single-token mutations) against the declaration-level parser of the model (names, memberOf, shape, tags or (err)); non-trivial = every '
+         'model line, policy and datum, distinct by text',
  'theorems': ['type_roundtrip',
               'type_roundtrip_json',
               'type_roundtrip_cedar_form',
               'resolve_stable',
               'envOK_needed_clash',
               'envOK_needed_shadow',
-              'translation_preserves_types_partial'],
- 'assumptions': ['theorems cover type expressions and name resolution only; declarations, annotations, lexing/escapes, fmt.rs collision checks and '
-                 'ValidatorSchema construction are covered by the four-way differential run',
+              'translation_preserves_types_partial',
+              'decl_roundtrip',
+              'decl_roundtrip_prefix',
+              'decl_roundtrip_json',
+              'decl_parser_accepts_more'],
+ 'assumptions': ['theorems cover type expressions, name resolution and the syntax of STANDARD ENTITY declarations (names, memberOf, shape with '
+                 'optional fields, tags: decl_roundtrip); enum entities, action / common-type / namespace declarations, annotations, lexing/escapes, '
+                 'fmt.rs collision checks and ValidatorSchema construction are covered by the four-way differential run only',
                  "the model's tokens are produced from Rust's printed text by the harness's lexer (string literals unescaped by the real "
                  'to_unescaped_string)',
                  'resolution is observed end to end: the reply is read off the resolved type of a probe attribute in a synthetic schema']}
@@ -27,8 +35,10 @@ PROP = {'streams': [('c09', 2000, 200000)],
 TEXT = ('Lean theorems over a thin model of schema TYPE EXPRESSIONS and NAME RESOLUTION only: the parser of the Cedar type grammar inverts the printer of '
  'fmt.rs (type_roundtrip, incl. attribute names that need quoting), JSON -> Cedar -> JSON maps an expression to its entity-or-common form '
  '(type_roundtrip_json), and on declaration environments without common/entity clashes and without shadowing of empty-namespace definitions that '
- 'form resolves every reference to the same declaration (resolve_stable; both hypotheses shown necessary). Declarations (entities, actions, '
- 'appliesTo, memberOf, enums, tags, annotations, namespaces) and everything else are NOT modelled: they are covered by the four-way differential run '
+ 'form resolves every reference to the same declaration (resolve_stable; both hypotheses shown necessary). Declaration level, standard entity '
+ 'declarations only (Cedar/SchemaDecl.lean): the parser of the grammar\'s Entity production inverts the fmt.rs printer for any names / memberOf '
+ 'list / shape with optional fields / tags (decl_roundtrip), and a JSON entityTypes entry comes back as itself with entity-or-common leaves '
+ '(decl_roundtrip_json). Enum entities, actions (appliesTo, parents), common-type and namespace declarations, annotations and everything else are NOT modelled: they are covered by the four-way differential run '
  'on the implementation (JSON -> schema vs JSON -> to_cedarschema -> schema, Cedar -> schema vs Cedar -> to_json_value -> schema, one further hop '
  'each, equality of ValidatorSchema plus identical policy/request/entity validation verdicts).',
  'proof over a hand-written model of type expressions and name resolution; the full statement (FullStatement) is not proved and is in fact violated '
